@@ -30,7 +30,9 @@ def load_contracts():
 
 
 def _verify_one(idx_repo_timeout):
-    idx, repo, timeout_ms = idx_repo_timeout
+    idx, repo, timeout_ms = idx_repo_timeout[:3]
+    if len(idx_repo_timeout) > 3:
+        os.environ["PYVC_INPROC_MS"] = str(idx_repo_timeout[3])
     from pyvc.contract import verify
     reg = load_contracts()
     try:
@@ -193,7 +195,9 @@ def main(argv=None):
     retry = [k for k, r in enumerate(results) if any(o["status"] == "unknown" for o in r.obligations)]
     if retry and len(retry) <= 12:
         with mp.Pool(2) as pool:
-            redo = [(k, pool.apply_async(_verify_one, ((mine[k][0], repo, timeout_ms * 2),))) for k in retry]
+            # retry: doubled CLI budget and a 4x in-process budget (an obligation the in-process solver normally discharges in
+            # milliseconds can exceed 2 s when all cores are busy)
+            redo = [(k, pool.apply_async(_verify_one, ((mine[k][0], repo, timeout_ms * 2, 8000),))) for k in retry]
             for k, a in redo:
                 try:
                     r2 = a.get(timeout=1200)
